@@ -1060,6 +1060,9 @@ int main(int argc, char **argv)
     }
 
     // ---- Part D: session boundaries through the real stream-management negotiation
+    // corpus first: witness of the defect fixed by repo commit c590ae4 (stale "can resume" after a session without stream
+    // management; oracle key C07:neg:stale-resumable-after-session-without-sm)
+    runNegSeq({ "connR", "connN", "send", "loss" });
     runNegSeq({ "connF", "send", "connF" });                        // seeded change C07_a1: refused resumption, new session WITH stream management
     runNegSeq({ "connF", "connR", "send", "connF" });               // seeded change C07_b1: 'resumed' of the previous session must not leak
     runNegSeq({ "connF", "send", "loss", "connR", "reply", "send", "loss", "connN" });
